@@ -190,7 +190,7 @@ func c17gate(c *an.Ctx) {
 			}
 			// refusal is 403
 			okDeny := len(deny) > 0
-			qd := &an.PathQ{Fn: fn, StartEdges: deny, Sink: func(in ssa.Instruction, _ *an.PathState) bool {
+			qd := &an.PathQ{Fn: fn, StartEdges: deny, Sink: func(in ssa.Instruction, st *an.PathState) bool {
 				r, ok := in.(*ssa.Return)
 				if !ok {
 					return false
@@ -199,7 +199,7 @@ func c17gate(c *an.Ctx) {
 				if e == nil {
 					return true
 				}
-				code, _, isErr := httpErrOf(e)
+				code, _, isErr := httpErrOf(st.Selected(e))
 				return !isErr || code != 403
 			}}
 			if _, bad := qd.Find(); bad {
@@ -227,7 +227,7 @@ func c17identity(c *an.Ctx) {
 		good := false
 		facts := an.FactsAt(r.Block())
 		if _, isC := v.(*ssa.Const); !isC {
-			facts = append(facts, an.Fact{V: v, True: true})
+			facts = append(facts, an.ExpandFact(an.Fact{V: v, True: true})...)
 		}
 		for _, f := range facts {
 			cmp, ok := f.AsCmp()
